@@ -30,6 +30,10 @@ CLAIMED = {
         engine="sim-conf", level="exploration", ref="DESIGN.md §6 C05",
         technique="deterministic simulation: seeded histories with aborted, dropped and poisoned transactions checked against the reference model and the allocated-page count",
         text="Seeded search over transaction bodies ended by abort(), drop or commit() of a transaction poisoned by a panicking predicate; the next transaction must observe the model state from before, savepoint validity included, and stats().allocated_pages() must equal its value before the abandoned transaction."),
+    "C06": dict(
+        engine="sim-conf", level="exploration", ref="DESIGN.md §4.5, §6 C06",
+        technique="deterministic simulation: exact page-ownership equation after every transaction-ending step (independent decoder over the live trees vs the allocator snapshot) plus a write monitor on every backend write",
+        text="After every step that ends a transaction, reopens, compacts or drops a savepoint, the allocator's allocated set (verif_snapshot hook) must equal, exactly and without double owners, the pages of the live data tree, the live system tree, the pages listed in the on-disk freed tables and the in-memory freed records, decoded by an independent reader; pages named by allocation records must be allocated. At every successful sync_data the pages reachable from the commit recovery would select are write-protected until the next sync, and any backend write overlapping them is a violation. Seeded churn histories with readers, savepoints, non-durable commits, compaction and reopen."),
     "C07": dict(
         engine="sim-crash", level="exploration", ref="DESIGN.md §6 C07",
         technique="deterministic simulation: seeded savepoint histories with crash-image exploration against the reference model",
@@ -42,6 +46,10 @@ CLAIMED = {
         engine="sim-conf", level="exploration", ref="DESIGN.md §6 C09 (conformance tier)",
         technique="deterministic simulation, fault-free conformance tier: seeded multimap programs against a map-of-sorted-sets model",
         text="Seeded generation of multimap programs with few keys and many values (value sizes empty to > half a page, driving inline <-> subtree transitions) at every page size; insert/remove/remove_all/get/range/len results and contents after commit and reopen equal the model."),
+    "C10": dict(
+        engine="sim-conf", level="exploration", ref="DESIGN.md §4.6, §6 C10",
+        technique="deterministic simulation: at every successful sync_data of every simulated run the durable bytes are decoded by an independent from-the-format reader (own XXH3 via xxhash-rust, own comparators)",
+        text="At every successful sync_data (after creation) the durable bytes alone are decoded following the documented v3 format: recovery's slot choice is emulated, and the selected forest must have strictly increasing keys, routing keys bounding their subtrees, leaves at one depth, stored counts equal to entries present, no page referenced twice, every page inside its region, every checksum from slot to leaf matching; its logical contents and savepoint list must equal one admissible model version. Independent of redb's accessors and checksum code."),
     "C11": dict(
         engine="sim-crash", level="exploration", ref="DESIGN.md §6 C11",
         technique="deterministic simulation: every open path (clean, quick-repair, full repair, crash during repair) followed by check_integrity and further transactions, against the reference model",
@@ -62,8 +70,6 @@ CLAIMED = {
 
 NOT_YET = {
     "C03": "check not built yet (needs the shuttle-scheduled engine, DESIGN.md §5); no claim is made until it exists",
-    "C06": "check not built yet (needs the verif_snapshot hook and the independent decoder, DESIGN.md §4.5); no claim is made until it exists",
-    "C10": "check not built yet (independent file decoder, DESIGN.md §4.6); no claim is made until it exists",
     "C12": "check not built yet (stored-byte corruption engine, DESIGN.md §6 C12); no claim is made until it exists",
     "C16": "check not built yet (needs the shuttle-scheduled engine, DESIGN.md §5); no claim is made until it exists",
     "C18": "check not built yet (experimental_cursor feature build of the conformance tier); no claim is made until it exists",
